@@ -247,7 +247,13 @@ def run(ctx: C.Ctx):
                 '(TZ + tzset, restored; start-up probe), leaf annotated as the stdlib type or as a user subclass of datetime / date / time / '
                 'Decimal (exact class required) / timedelta / str / int, random nesting context of each engine: datetime = the aware UTC '
                 'instant (default, Env), the given instant (v1), date = the local day by C localtime (docs: builtin fromtimestamp), ISO '
-                'strings zone-independent; non-subclass cases also vs the Lean models with Std tables built inside the zone.')
+                'strings zone-independent; non-subclass cases also vs the Lean models with Std tables built inside the zone. '
+                'KINDS OF ENUM CLASSES (c04_enum.py): plain / alias / mix-in / _missing_ hooks (other letter case, catch-all member, digit strings) / '
+                'Flag and IntFlag (unnamed combinations nobody has constructed yet) / unhashable member values, member values, hook-only values and '
+                'rejected values, every nesting context, three engines (EnvWizard: environment variable and keyword input): outcome of the load = '
+                'outcome of E(v) asked afterwards. SHARED TYPES (c04_shared.py): one NamedTuple / TypedDict shared by 2-3 classes of different '
+                'engines (default, own-loader hooks, v1, EnvWizard) under a random interleaving of class definitions and loads, JSON-style and '
+                'environment-style member inputs: every outcome = the outcome when the class is the only user of the type.')
     reqs, pend = [], []
     for i, (tk, v, ck) in enumerate(cases(ctx)):
         if ctx.done(i):
